@@ -645,6 +645,8 @@ def G12_set_order(repo, clause, scope=ALL_LIB):
                     continue     # sorted in place before this use
                 p1 = fn.parents.get(u)
                 # row selector: X[u], X[u, :], np.take(X, u), X.take(u)
+                if isinstance(p1, ast.Subscript) and p1.slice is u and isinstance(p1.ctx, ast.Del):
+                    continue     # `del x[rows]`: which rows go does not depend on the order they are named in (Atoms.__delitem__ sorts them itself, rule A10)
                 if isinstance(p1, ast.Subscript) and p1.slice is u:
                     ordered_use = "`%s` selects rows in that order" % ast.unparse(p1)[:50]
                 elif isinstance(p1, ast.Tuple) and isinstance(fn.parents.get(p1), ast.Subscript) and fn.parents.get(p1).slice is p1:
@@ -1201,6 +1203,265 @@ def G19_bucket_key_present(repo, clause, scope=ALL_LIB):
                                   ast.unparse(u)[:40], fn.qualname, u.value.id, sorted(srcs)[0][:30], ast.unparse(key)[:30], u.value.id),
                               slot="bucket-key:%s:%s" % (fn.qualname, ast.unparse(u)[:40]), positive="robust"))
     obs.append(Ob("G19", clause, fns[0], fns[0].node, True, "%d functions in scope, %d subscripts of occurrence tables" % (len(fns), n), construct="occurrence table inventory", slot="inventory"))
+    return obs
+
+
+def G20_zip_filtered_with_unfiltered(repo, clause, scope=ALL_LIB):
+    """`zip(titles, [t for t in tables if keep(t)])`: two literal sequences of the same length are parallel lists; filtering ONE of them before zipping shifts every later pair
+    (the third table is written under the second title as soon as the second table is empty).  The filter belongs after the zip (or on both, with one mask)."""
+    obs = []
+    fns = _scope_fns(repo, scope)
+    n = 0
+
+    def literal_len(fn, e):
+        v = e
+        if isinstance(e, ast.Name):
+            try:
+                v = expand(fn, e)
+            except Exception:
+                return None
+        if isinstance(v, (ast.Tuple, ast.List)) and not any(isinstance(x, ast.Starred) for x in v.elts):
+            return len(v.elts)
+        return None
+
+    def filtered_source(e):
+        """the sequence a filtering expression draws from, or None when the expression does not filter"""
+        if isinstance(e, (ast.ListComp, ast.GeneratorExp)) and len(e.generators) == 1 and e.generators[0].ifs:
+            g = e.generators[0]
+            if isinstance(e.elt, ast.Name) and isinstance(g.target, ast.Name) and e.elt.id == g.target.id:
+                return g.iter
+            return None
+        if isinstance(e, ast.Call) and call_name(e) == "filter" and len(e.args) == 2:
+            return e.args[1]
+        if isinstance(e, ast.Call) and call_name(e) in ("list", "tuple") and len(e.args) == 1:
+            return filtered_source(e.args[0])
+        return None
+
+    for fn in fns:
+        for c in [x for x in fn.own_nodes() if isinstance(x, ast.Call) and isinstance(x.func, ast.Name) and x.func.id == "zip" and len(x.args) >= 2]:
+            n += 1
+            srcs = []
+            for a in c.args:
+                v = a
+                if isinstance(a, ast.Name):
+                    try:
+                        v = expand(fn, a)
+                    except Exception:
+                        v = a
+                srcs.append((a, filtered_source(v)))
+            filt = [(a, f) for a, f in srcs if f is not None]
+            plain = [(a, literal_len(fn, a)) for a, f in srcs if f is None]
+            for a, f in filt:
+                lf = literal_len(fn, f)
+                for b, lb in plain:
+                    if lf is not None and lb is not None and lf == lb and lf > 1:
+                        obs.append(Ob("G20", clause, fn, c, False,
+                                      "`%s` in %s pairs the %d entries of `%s` with what is LEFT of the %d parallel entries of `%s` after a filter: once one entry is filtered out every "
+                                      "later entry is paired with the wrong partner (filter after zipping)" % (
+                                          ast.unparse(c)[:70], fn.qualname, lb, ast.unparse(b)[:30], lf, ast.unparse(f)[:30]),
+                                      slot="zip-filtered:%s:%s" % (fn.qualname, ast.unparse(b)[:30]), positive="robust"))
+    obs.append(Ob("G20", clause, fns[0], fns[0].node, True, "%d functions in scope, %d zip() calls examined" % (len(fns), n), construct="zip inventory", slot="inventory"))
+    return obs
+
+
+def G21_row_position_dict(repo, clause, scope=ALL_LIB):
+    """`{tuple(row): i for i, row in enumerate(rows)}` keeps ONE position per distinct row.  Used to find "the rows that ..." of a table of terms (bonds, angles ...: nothing
+    makes their rows distinct) it silently drops all but the last of equal rows - where the scan it replaces (`enumerate` + test, `cdist(...) == 0`) reports every one.
+    Accepted: the rows are made distinct first (np.unique(axis=0), dict.fromkeys, set), or the positions are collected per key (`setdefault(key, []).append(i)`)."""
+    obs = []
+    fns = _scope_fns(repo, scope)
+    n = 0
+
+    def rowish(fn, key, var, it):
+        """is the dict key the whole row (as a tuple) of an iteration over the rows of an array / list of tuples?"""
+        if isinstance(key, ast.Call) and call_name(key) == "tuple" and len(key.args) == 1 and isinstance(key.args[0], ast.Name) and key.args[0].id == var:
+            return True
+        if isinstance(key, ast.Name) and key.id == var:
+            # rows already converted: the iterable is `[tuple(r) for r in X]` / `map(tuple, X)` / X.tolist() rows
+            try:
+                v = expand(fn, it) if isinstance(it, ast.Name) else it
+            except Exception:
+                v = it
+            if isinstance(v, ast.ListComp) and isinstance(v.elt, ast.Call) and call_name(v.elt) == "tuple":
+                return True
+            if isinstance(v, ast.Call) and call_name(v) in ("map", "list") and v.args and ast.unparse(v.args[0]) == "tuple":
+                return True
+            if isinstance(v, ast.Call) and call_name(v) == "list" and v.args and isinstance(v.args[0], ast.Call) and call_name(v.args[0]) == "map" and ast.unparse(v.args[0].args[0]) == "tuple":
+                return True
+        return False
+
+    def distinct(fn, it):
+        try:
+            v = expand(fn, it) if isinstance(it, ast.Name) else it
+        except Exception:
+            v = it
+        txt = ast.unparse(v)
+        return any(w in txt for w in ("np.unique(", "dict.fromkeys(", "set(", "OrderedSet(", ".keys()"))
+
+    for fn in fns:
+        for d in [x for x in fn.own_nodes() if isinstance(x, ast.DictComp) and len(x.generators) == 1]:
+            g = d.generators[0]
+            if not (isinstance(g.iter, ast.Call) and call_name(g.iter) == "enumerate" and g.iter.args and isinstance(g.target, ast.Tuple) and len(g.target.elts) == 2
+                    and all(isinstance(e, ast.Name) for e in g.target.elts)):
+                continue
+            ivar, rvar = g.target.elts[0].id, g.target.elts[1].id
+            if not (isinstance(d.value, ast.Name) and d.value.id == ivar):
+                continue
+            n += 1
+            src = g.iter.args[0]
+            if not rowish(fn, d.key, rvar, src) or g.ifs:
+                continue
+            if distinct(fn, src):
+                obs.append(Ob("G21", clause, fn, d, True, "`%s`: the rows are made distinct before they are numbered" % ast.unparse(d)[:60], slot="row-dict:%s" % fn.qualname))
+                continue
+            obs.append(Ob("G21", clause, fn, d, False,
+                          "`%s` in %s keeps ONE position per distinct row of `%s`: equal rows (two identical terms) collapse to the last one, so a search through this table "
+                          "misses the others - the scan over all rows it stands for reports every one" % (ast.unparse(d)[:70], fn.qualname, ast.unparse(src)[:30]),
+                          slot="row-dict:%s" % fn.qualname, positive="robust"))
+    obs.append(Ob("G21", clause, fns[0], fns[0].node, True, "%d functions in scope, %d value -> position dict comprehensions examined" % (len(fns), n), construct="position dict inventory", slot="inventory"))
+    return obs
+
+
+def G23_parallel_accumulators(repo, clause, scope=ALL_LIB):
+    """Lists that are filled in one loop and later walked together (`zip(a, b)`, or `zip(<the loop's own iterable>, a)`) are parallel: entry k of each belongs to the
+    same iteration.  That holds only if EVERY path through the loop body appends the same number of entries to each of them (and exactly one per iteration when the
+    partner is the loop's iterable).  A branch that appends to one list and not to the other shifts every later pair by one."""
+    obs = []
+    fns = _scope_fns(repo, scope)
+    n = 0
+
+    def path_counts(stmts, names, cap=256):
+        """set of (counts tuple, still running?) over the acyclic paths through a statement list; None when an append sits inside an inner loop / try"""
+        states = {(tuple(0 for _ in names), True)}
+        for st in stmts:
+            nxt = set()
+            for cnt, live in states:
+                if not live:
+                    nxt.add((cnt, live))
+                    continue
+                if isinstance(st, ast.If):
+                    a = path_counts(st.body, names, cap)
+                    b = path_counts(st.orelse, names, cap)
+                    if a is None or b is None:
+                        return None
+                    for c2, l2 in a | b:
+                        nxt.add((tuple(x + y for x, y in zip(cnt, c2)), l2))
+                elif isinstance(st, (ast.Continue, ast.Break, ast.Return, ast.Raise)):
+                    nxt.add((cnt, False))
+                elif isinstance(st, (ast.For, ast.While, ast.Try, ast.With)):
+                    inner = [y for y in ast.walk(st) if isinstance(y, ast.Call) and isinstance(y.func, ast.Attribute) and y.func.attr in ("append", "extend", "insert", "pop", "remove")
+                             and isinstance(y.func.value, ast.Name) and y.func.value.id in names]
+                    inner += [y for y in ast.walk(st) if isinstance(y, (ast.Assign, ast.AugAssign)) and any(isinstance(t, ast.Name) and t.id in names for t in (y.targets if isinstance(y, ast.Assign) else [y.target]))]
+                    if inner:
+                        return None
+                    nxt.add((cnt, live))
+                else:
+                    add = [0] * len(names)
+                    for y in ast.walk(st):
+                        if isinstance(y, ast.Call) and isinstance(y.func, ast.Attribute) and isinstance(y.func.value, ast.Name) and y.func.value.id in names:
+                            if y.func.attr == "append":
+                                add[names.index(y.func.value.id)] += 1
+                            elif y.func.attr in ("extend", "insert", "pop", "remove", "clear"):
+                                return None
+                        if isinstance(y, (ast.Assign, ast.AugAssign)) and any(isinstance(t, ast.Name) and t.id in names for t in (y.targets if isinstance(y, ast.Assign) else [y.target])):
+                            return None
+                    nxt.add((tuple(x + y for x, y in zip(cnt, add)), live))
+            states = nxt
+            if len(states) > cap:
+                return None
+        return states
+
+    for fn in fns:
+        empties = {}
+        for a in fn.own_nodes():
+            if isinstance(a, ast.Assign) and len(a.targets) == 1 and isinstance(a.targets[0], ast.Name) and isinstance(a.value, ast.List) and not a.value.elts:
+                empties.setdefault(a.targets[0].id, []).append(a)
+        for z in [x for x in fn.own_nodes() if isinstance(x, ast.Call) and isinstance(x.func, ast.Name) and x.func.id == "zip" and len(x.args) >= 2]:
+            accs = [a.id for a in z.args if isinstance(a, ast.Name) and len(empties.get(a.id, [])) == 1]
+            if not accs:
+                continue
+            zst = fn.stmt_of(z)
+            # the loop(s) that fill them: the outermost loop statement that contains every append of the accumulators and does not contain the zip
+            for loop in [l for l in fn.own_nodes() if isinstance(l, ast.For)]:
+                if any(y is z for y in ast.walk(loop)):
+                    continue
+                # appends directly in this loop (not in a nested loop)
+                filled = [nm for nm in accs if any(isinstance(y, ast.Call) and isinstance(y.func, ast.Attribute) and y.func.attr == "append" and isinstance(y.func.value, ast.Name)
+                                                   and y.func.value.id == nm and next((a_ for a_ in fn.ancestors(y) if isinstance(a_, (ast.For, ast.While))), None) is loop
+                                                   for y in ast.walk(loop))]
+                if not filled:
+                    continue
+                # all appends of the filled accumulators must be in this loop, and the accumulators initialised before it
+                elsewhere = [y for y in fn.own_nodes() if isinstance(y, ast.Call) and isinstance(y.func, ast.Attribute) and y.func.attr in ("append", "extend", "insert", "pop", "remove")
+                             and isinstance(y.func.value, ast.Name) and y.func.value.id in filled and not any(y is w for w in ast.walk(loop))]
+                if elsewhere or any(any(empties[nm][0] is w for w in ast.walk(loop)) for nm in filled):
+                    continue
+                # is the loop's own iterable a partner in the zip?
+                it_txt = ast.unparse(loop.iter)
+                iter_partner = any(ast.unparse(a) == it_txt for a in z.args) and not isinstance(loop.iter, ast.Name) or any(
+                    isinstance(a, ast.Name) and isinstance(loop.iter, ast.Name) and a.id == loop.iter.id for a in z.args)
+                if len(filled) < 2 and not iter_partner:
+                    continue
+                n += 1
+                pc = path_counts(loop.body, filled)
+                if pc is None:
+                    continue
+                bad = None
+                for cnt, live in sorted(pc):
+                    if len(set(cnt)) > 1:
+                        bad = (cnt, "the lists get different numbers of entries")
+                        break
+                    if iter_partner and live and cnt[0] != 1:
+                        bad = (cnt, "an iteration of `for ... in %s` adds %d entries where its partner `%s` advances by one" % (it_txt[:30], cnt[0], it_txt[:30]))
+                        break
+                ok = bad is None
+                obs.append(Ob("G23", clause, fn, z, ok,
+                              "`%s` in %s walks %s%s together; %s" % (
+                                  ast.unparse(z)[:60], fn.qualname, ", ".join(filled), (" and the iterable `%s` of the loop that fills them" % it_txt[:30]) if iter_partner else "",
+                                  "every path through the filling loop adds the same number of entries to each" if ok else
+                                  "on one path through the loop body the appends are %s - %s: from that iteration on every pair is shifted" % (dict(zip(filled, bad[0])), bad[1])),
+                              slot="parallel-accumulators:%s:%s" % (fn.qualname, "+".join(filled)), positive="robust" if not ok else False))
+    obs.append(Ob("G23", clause, fns[0], fns[0].node, True, "%d functions in scope, %d zips of loop-filled lists examined" % (len(fns), n), construct="parallel list inventory", slot="inventory"))
+    return obs
+
+
+def G22_positional_order(repo, clause, scope=ALL_LIB):
+    """The order of the positional parameters of a public function is observable: a caller that passes the optional arguments by position (the documented order)
+    binds them by position.  Moving a parameter to another slot - regrouping the signature, putting a tolerance before the hints - silently re-binds those arguments
+    (the first hint becomes the tolerance).  Reference: the confirmed signatures in reference_shapes.json (`__signatures__`).  Appending new parameters at the end,
+    or after `*`, leaves every existing call unchanged and is accepted."""
+    from verif_sa.core import load_reference_shapes
+    obs = []
+    fns = _scope_fns(repo, scope)
+    sigs = load_reference_shapes().get("__signatures__")
+    if not isinstance(sigs, dict) and clause == "ref":
+        sigs = {}       # tools/gen_reference.py is writing them right now
+    if not isinstance(sigs, dict):
+        raise AnalysisError("G22: reference signatures missing (run tools/gen_reference.py on the confirmed tree)")
+    n = 0
+    for fn in fns:
+        ref = sigs.get(fn.qualname)
+        if ref is None:
+            continue
+        n += 1
+        cur = [a.arg for a in fn.node.args.posonlyargs + fn.node.args.args]
+        moved = [(i, p) for i, p in enumerate(ref) if p in cur and cur.index(p) != i]
+        gone = [p for p in ref if p not in cur and p not in [a.arg for a in fn.node.args.kwonlyargs]]
+        kwonly = [p for p in ref if p in [a.arg for a in fn.node.args.kwonlyargs]]
+        ok = not moved and not kwonly
+        if ok and not gone:
+            obs.append(Ob("G22", clause, fn, fn.node, True, "%s keeps its positional parameters in the confirmed order" % fn.qualname, construct="def %s(%s)" % (fn.name, ", ".join(cur)),
+                          slot="positional-order:%s" % fn.qualname))
+        elif not ok:
+            i, p = (moved[0] if moved else (ref.index(kwonly[0]), kwonly[0]))
+            obs.append(Ob("G22", clause, fn, fn.node, False,
+                          "%s: parameter `%s` was positional argument #%d and is now %s: a call that passes it by position (documented order %s) now binds `%s` instead" % (
+                              fn.qualname, p, i + 1, ("#%d" % (cur.index(p) + 1)) if p in cur else "keyword-only", ", ".join(ref), cur[i] if i < len(cur) else "nothing (TypeError)"),
+                          construct="def %s(%s)" % (fn.name, ", ".join(cur)), slot="positional-order:%s" % fn.qualname, positive="robust"))
+        else:
+            obs.append(Ob("G22", clause, fn, fn.node, False, "%s no longer has the parameter(s) %s" % (fn.qualname, gone), construct="def %s(%s)" % (fn.name, ", ".join(cur)),
+                          slot="positional-order:%s" % fn.qualname, undecided=True))
+    obs.append(Ob("G22", clause, fns[0], fns[0].node, True, "%d public functions in scope compared with their confirmed signatures" % n, construct="signature inventory", slot="inventory"))
     return obs
 
 
